@@ -359,6 +359,15 @@ def module_chain(ctx, obj, shape, p_unknown):
     return {"op": "new", "obj": obj, "cls": "Rule"}, calls, ev
 
 
+def _unknown_layer(rng, layers):
+    """A layer name the definition does not have: a plain stranger, the empty string, two defined
+    names run together, a defined name in other case / with a trailing blank / cut short."""
+    a, b = layers[0], layers[-1]
+    cand = rng.choice(["LX", "LX", "", a + b, b + a, a.lower() if a.lower() != a else a.upper(),
+                       a + " ", a[:-1] or "Z"])
+    return cand if cand not in layers else "LX"
+
+
 def layer_chain(ctx, obj, shape, prefer_typo=False, p_unknown_layer=0.0, avoid_typo=False):
     v, i, o = shape
     aid = ctx.arch(prefer_typo or avoid_typo)
@@ -376,11 +385,11 @@ def layer_chain(ctx, obj, shape, prefer_typo=False, p_unknown_layer=0.0, avoid_t
         else W.pick(rng, layers)
     others = [l for l in layers if l != subj] or layers
     if rng.random() < p_unknown_layer:
-        subj = "LX"
+        subj = _unknown_layer(rng, layers)
     calls = [_call(obj, "based_on", {"$obj": aid}), _call(obj, "layers_that"),
              _call(obj, "are_named", subj), _call(obj, v), _call(obj, i)]
     if o == "str":
-        calls.append(_call(obj, "are_named", "LX" if rng.random() < p_unknown_layer
+        calls.append(_call(obj, "are_named", _unknown_layer(rng, layers) if rng.random() < p_unknown_layer
                            else W.pick(rng, others)))
     elif o == "list":
         objs = rng.sample(others, min(2, len(others)))
@@ -388,7 +397,7 @@ def layer_chain(ctx, obj, shape, prefer_typo=False, p_unknown_layer=0.0, avoid_t
                 and arch["typo_layer"] not in objs:
             objs[0] = arch["typo_layer"]
         if rng.random() < p_unknown_layer:
-            objs[-1] = "LX"
+            objs[-1] = _unknown_layer(rng, layers)
         calls.append(_call(obj, "are_named", objs))
     return {"op": "new", "obj": obj, "cls": "LayerRule"}, calls, ctx.ev_for_cfg(arch["cfg"])
 
@@ -570,7 +579,10 @@ def chain_reuse(ctx, client):
             elif r < 0.75:
                 extra = [_call(obj, W.pick(rng, list(LAYER_ANY)))]
             elif r < 0.82:
-                extra = [_call(obj, "are_named", "LX")]
+                aid0 = next((c["a"][0]["$obj"] for c in calls if c.get("m") == "based_on"), None)
+                arch0 = ctx.wd["archs"].get(aid0) if aid0 else None
+                extra = [_call(obj, "are_named", _unknown_layer(rng, [l[0] for l in arch0["layers"]])
+                               if arch0 else "LX")]
             elif r < 0.93:
                 # one more layer on the current side: a defined one - possibly the one whose
                 # definition holds a module that no architecture contains
